@@ -316,6 +316,19 @@ pub open spec fn avp_eq(a: AvpV, b: AvpV) -> bool {
                 cur = '%s.skip(%d)' % (cur, it[1])
         disp += '        else { None }\n    } else\n'
     disp += '    { None }\n}\n'
+    # per-kind round trip, dispatched (C03 / C10 / C11 building block)
+    disp += ('pub proof fn lemma_payload_roundtrip(v: AvpV)\n    requires spec_payload_ok(v), !v.hidden,\n'
+             '    ensures spec_kind_assigned(v.kind), spec_payload_dec(v.kind, spec_payload_enc(v)) == Some(v), //[C03,C10,C11:spec.payload.roundtrip]\n{\n'
+             '    broadcast use lemma_avp_eq;\n')
+    for n in nums:
+        disp += '    if v.kind == %d { lemma_pdec_penc_%d(v); }\n' % (n, n)
+    disp += '}\n'
+    disp += ('pub proof fn lemma_payload_decoded_ok(kind: int, p: Seq<u8>)\n    requires spec_payload_dec(kind, p) is Some,\n'
+             '    ensures spec_payload_ok(spec_payload_dec(kind, p)->Some_0), !spec_payload_dec(kind, p)->Some_0.hidden,\n'
+             '        spec_payload_dec(kind, p)->Some_0.kind == kind, spec_payload_enc(spec_payload_dec(kind, p)->Some_0).len() <= p.len(), //[C10:spec.payload.decoded_is_encodable]\n{\n')
+    for n in nums:
+        disp += '    if kind == %d { lemma_pdec_ok_%d(p); }\n' % (n, n)
+    disp += '}\n'
     disp += 'pub open spec fn spec_kind_assigned(kind: int) -> bool {\n    ' + ' || '.join('kind == %d' % n for n in nums) + '\n}\n'
     out.append(disp)
     return '\n'.join(out)
